@@ -73,9 +73,11 @@ impl FunctionMarkupPass {
             found_ret.file(),
         );
 
+        // The target is not a label of the program, and its name is one that
+        // no label of a program can have
         let inst = With::new(JumpLinkType::Jal, info.clone());
         let rd = With::new(Register::X0, info.clone());
-        let name = With::new(LabelString::new("__return__"), info.clone());
+        let name = With::new(LabelString::new("(return)"), info.clone());
         // The jump stands where the return stood (not at the exit it leads to)
         let new_node =
             ParserNode::new_jump_link(inst, rd, name, found_ret.node().token().clone());
